@@ -274,6 +274,11 @@ fn cw1_listings(n: usize, rng: &mut Rng, out: &mut Out, run: &mut u64) {
             perms.push(k.to_string());
         }
     }
+    // some keys with grants are promoted to admins afterwards: their entries stay entries of the listings
+    let mut new_admins: Vec<String> = vec![admin.to_string()];
+    new_admins.extend(keys.iter().enumerate().filter(|(i, _)| i % 4 == 0).map(|(_, k)| k.to_string()));
+    let m: cw1_subkeys::msg::ExecuteMsg = cw1_subkeys::msg::ExecuteMsg::UpdateAdmins { admins: new_admins };
+    w.app.execute_contract(admin.clone(), c.clone(), &m, &[]).unwrap();
     w.set_clock(20, 200);
     let c1 = c.clone();
     let l = Listing {
